@@ -140,6 +140,9 @@ func checkC14(c *core.Ctx) {
 			r7.Missing("pcapgo.(*Writer).WriteFileHeader/params", fmt.Sprintf("only %d header fields written from parameters", n))
 		}
 	}
+	r8 := c.Rule("R14.8", "T", "unsigned fields read from a file are not sign-extended (no same-width signed conversion before widening)")
+	r9 := c.Rule("R14.9", "T", "ReadPacketData* (the copying calls) return no slice of memory owned by the reader")
+	readerValueRules(c, r8, r9)
 	r6 := c.Rule("R14.6", "T", "segment order of a pcapng packet block (header, data, padding, options, trailer) is the same in the writer and the reader")
 	segmentOrder(c, r6)
 	r5 := c.Rule("R14.5", "D", "padding is (4 - len mod 4) mod 4 on both sides, for all four residues")
